@@ -26,6 +26,7 @@ LEVEL_TEXT = ("seeded search over storage-fault sequences applied to valid files
 LEVEL_NOTE = ("allowed outcomes: return, library FormatError family, ValueError (incl. UnicodeDecodeError from the "
               "medium's text layer); a wall-clock trip is re-run under a deterministic line budget before it counts")
 RUNS = {"quick": 9000, "thorough": 400000}
+OPTIMIZED_PASS = {"quick": 500, "thorough": 8000}   # extra runs under PYTHONOPTIMIZE=1 (assert statements removed)
 OWN_WATCHDOG = True   # per-parse alarm + deterministic line budget inside run()
 RULE = ("per run one valid BF3/BEC2/BF2 file and ~10 damage sets of 1-4 storage faults each; every damaged text is "
         "parsed by the matching entry point under 2-4 configurations (decryptor set none/public-only/private/wrong "
@@ -34,7 +35,7 @@ RULE = ("per run one valid BF3/BEC2/BF2 file and ~10 damage sets of 1-4 storage 
 REAL = ["bec2format.bf3file (BF3 reader, BF2 importer, filter formatter)", "bec2format.bec2file (BEC2 reader, auth "
         "blocks, encryptors)", "bec2format.configid", "register_crypto_plugin + pyaes + ecdsa"]
 STUBS = ["peer: stub decryptors (the ext_encryptors seam) returning payloads of unexpected size", "medium: SimFS with at-rest damage", "RNG: SimRng", "BF2 texts: grammar generator sim/bf2gen.py"]
-PROBES = ["same-text-read-again", "peer-decryptor-odd-payload", "parsed-ok-after-damage", "format-error", "value-error", "bec2-empty-block-value",
+PROBES = ["runs-with-assertions-disabled", "same-text-read-again", "peer-decryptor-odd-payload", "parsed-ok-after-damage", "format-error", "value-error", "bec2-empty-block-value",
           "bf2-damaged", "configid-downstream", "filter-downstream", "line-fault", "public-only-decryptor",
           "wrong-key-decryptor", "payload-len-zero"]
 ASSUMPTIONS = ["OSError is never injected here (the medium is damaged at rest, reads succeed)"]
